@@ -61,6 +61,11 @@ def run(ctx, R, tier):
     dt_rule(F, R)
     shared_rate_single(F, R)
     rate_bounds(F, R)
+    cursors(F, R)
+    # 'keep their real-time speed' at every rate and buffer size: elapsed time is accumulated in double precision (in single
+    # precision the per-step rounding depends on how small the step is, i.e. on the device rate)
+    from .c06 import accumulators
+    accumulators(F, R, rule='B.C16.accumulate')
     # 'tweens keep their real-time speed' at every rate: each parameter is updated exactly once per pass, by that pass's duration
     from .c06 import cover as parameter_cover
     parameter_cover(F, R)
@@ -355,6 +360,52 @@ def pair(F, R):
                 % (ty, sorted(fields), sorted(callees), sorted(miss_f), sorted(miss_c)),
                 detail={'effect': ty, 'rate_dependent_fields': sorted(fields), 'callees': sorted(callees)}, where=cb.file)
     R.floor('B.C16.pair', n, 8)
+
+
+def cursors(F, R, rule='B.C16.cursor'):
+    """'Survives a change of that rate mid-stream': where on_change_sample_rate replaces a buffer whose length follows the
+    rate, every position kept into that buffer (a read / write cursor: an integer field of the same struct that some method
+    combines with the buffer - indexes it, splits it, wraps around its length) is reset there too.  A cursor that survives
+    the resize points past the end of a shorter line."""
+    import re
+    from ..paths import describe_rv
+    n = 0
+    for cb in F.bodies:
+        if cb.krate != 'kira' or not cb.path.endswith('::on_change_sample_rate') or '{closure' in cb.path:
+            continue
+        ty = cb.path[1:].split(' as ')[0] if cb.path.startswith('<') else cb.path.rsplit('::', 1)[0]
+        fields = F.struct_fields(ty) or []
+        if not fields:
+            continue
+        stored = set(pretty_place(cb, s['lhs']).split('.')[1].split('[')[0] for _, _, s in cb.stmts()
+                     if s['k'] == 'assign' and s['lhs']['p'] and pretty_place(cb, s['lhs']).startswith('(*self).'))
+        stored |= set(pretty_place(cb, t['dest']).split('.')[1].split('[')[0] for _, t in cb.calls()
+                      if t.get('dest') and t['dest']['p'] and pretty_place(cb, t['dest']).startswith('(*self).'))
+        bufs = [f['name'] for f in fields if f['name'] in stored and ('std::vec::Vec<' in f['ty'] or 'Box<[' in f['ty'] or 'VecDeque<' in f['ty'])]
+        ints = [f['name'] for f in fields if f['ty'] in ('usize', 'u32', 'u64', 'isize', 'i32', 'i64')]
+        for buf in bufs:
+            n += 1
+            users = set()
+            for b in F.bodies:
+                if b.krate != 'kira':
+                    continue
+                q = b.path.split('::{closure')[0]
+                oty = q[1:].split(' as ')[0] if q.startswith('<') else q.rsplit('::', 1)[0]
+                if oty != ty:
+                    continue
+                texts = [describe_rv(b, s['rv'], depth=6, at=bb) + ' ' + pretty_place(b, s['lhs']) for bb, _, s in b.stmts() if s['k'] == 'assign']
+                texts += ['%s(%s)' % (callee_path(t), ', '.join(describe(b, a, depth=6, at=bb) for a in t['args'])) for bb, t in b.calls()]
+                for tx in texts:
+                    if re.search(r'\(\*self\)\.%s(?![A-Za-z_0-9])' % re.escape(buf), tx):
+                        for x in ints:
+                            if re.search(r'\(\*self\)\.%s(?![A-Za-z_0-9])' % re.escape(x), tx):
+                                users.add(x)
+            lost = sorted(x for x in users if x not in stored)
+            R.check(not lost, rule, '%s.%s' % (ty.split('::')[-1], buf),
+                    '%s::on_change_sample_rate replaces `%s` but leaves %s, which %s uses as a position into it, as it was: after a '
+                    'rate drop the position lies beyond the end of the shorter buffer' % (ty, buf, lost, ty.split('::')[-1]),
+                    detail={'buffer': buf, 'cursors': sorted(users)}, where=cb.file)
+    R.floor(rule, n, 1)
 
 
 def init_sites(F, R):
